@@ -143,6 +143,18 @@ def shape_procptr(n):
     return [("qsub", b)]
 
 
+def shape_pointer_across_use(n):
+    """A ring of pointer initialisations whose members live in different modules that USE each other: every link
+    leaves the scope of its variable, and the chain comes back through the cyclic USE."""
+    units = []
+    for i, j in _ring(n):
+        units.append((f"vm{i}", f"module vm{i}\n  use vm{j}\n  implicit none\n  integer, pointer :: vp{i} => vp{j}\n"
+                               f"  procedure(vq{j}), pointer :: vq{i}\ncontains\n  subroutine vs{i}()\n    vp{i} = 1\n    call vq{i}()\n  end subroutine vs{i}\nend module vm{i}\n"))
+    e = _entry(n)
+    units.append(("vprog", f"program vprog\n  use vm{e}\n  implicit none\n  vp{e} = 2\n  call vq{e}()\n  call vs{e}()\nend program vprog\n"))
+    return units
+
+
 def shape_generic(n):
     b = "module gm\n  implicit none\n"
     for i, j in _ring(n):
@@ -239,6 +251,7 @@ SHAPES = {
     "procptr": shape_procptr, "generic": shape_generic, "include": shape_include, "pp_include": shape_pp_include,
     "pp_macro": shape_pp_macro, "select_type": shape_select, "component": shape_component, "iface_arg": shape_iface_arg,
     "result_name": shape_result, "self_use": shape_self_use, "include_in_scope": shape_include_in_scope,
+    "pointer_across_use": shape_pointer_across_use,
 }
 
 
@@ -267,7 +280,7 @@ def _lasso(fn, t):
 
 
 for _name in ("use", "extends", "extends_files", "submodule", "include", "pointer", "binding", "extends_files_rev", "include_rev",
-              "include_in_scope"):
+              "include_in_scope", "pointer_across_use"):
     for _t in (1, 2):
         SHAPES[f"{_name}_lasso{_t}"] = _lasso(SHAPES[_name], _t)
 
